@@ -494,14 +494,25 @@ def run(ctx):
             forced = []
             if name in SPARSE:     # always exercise: path after path, fit after path
                 forced = [("path", "path"), ("path", "fit")]
+                if name in ("SparseLinearMMD", "SparseMLPMMD"):
+                    # and: dynamic mode together with a user matrix (legal: documented warning, dynamic ignored for that call)
+                    forced.append(("path", "path", "dynamic+precomputed"))
             for r in range(reps + len(forced)):
                 k += 1
                 case_seed = ctx.seed * PRIME + 100 + k
                 rs = np.random.RandomState(case_seed)
                 case = gen_case(rs, name, ctx.tier)
                 case["case_seed"] = case_seed
+                if r >= reps and len(forced[r - reps]) == 3:
+                    for j in range(1, 400):        # the first seed whose configuration has dynamic=True and a precomputed kernel
+                        if case["pre"] and case["kw"].get("dynamic"):
+                            break
+                        case_seed = ctx.seed * PRIME + 100 + k + 100000 * j
+                        case = gen_case(np.random.RandomState(case_seed), name, ctx.tier)
+                    case["case_seed"] = case_seed
+                    ctx.count("forced:dynamic+precomputed" if case["pre"] and case["kw"].get("dynamic") else "forced:dynamic+precomputed:not-found")
                 if r >= reps:
-                    hop, fop = forced[r - reps]
+                    hop, fop = forced[r - reps][:2]
                     case["history"] = [{"op": hop, "data": 0}]
                     case["final"] = {"op": fop, "data": 0}
                 run_case(ctx, data, case, seen_keys)
